@@ -152,6 +152,10 @@ func (p *protocolV1) Pack(ctx *protocol.Context, packet *protocol.Packet, opts .
 
 	bl := len(packet.Body)
 
+	// the gzip flag describes this frame's body: a packet decoded from a compressed frame (flag set, body
+	// already decompressed) and packed again must not carry the stale flag into a frame that is not compressed
+	packet.Metadata.Gzip = false
+
 	if o.MinGzipSize != 0 && bl >= o.MinGzipSize {
 		var err error
 		if packet.Body, err = gzip.Compress(packet.Body); err != nil {
